@@ -18,6 +18,14 @@ func (m *MonC13) snapshot(w *World) {
 	m.preGroup = map[string]map[string]int{}
 	m.preSubs = liveSubs(w)
 	m.preInSync = map[string]bool{}
+	m.preSettled = map[string]bool{}
+	for _, vc := range w.ConnSnapshot() {
+		for _, s := range vc.Subs {
+			if s.QueueFlag == 0 && s.State == 5 {
+				m.preSettled[vc.CID+"|"+s.RID] = true
+			}
+		}
+	}
 	for _, c := range w.Clients {
 		for _, rid := range c.Ref.HeldRIDs() {
 			if !strings.Contains(rid, "?") {
@@ -116,10 +124,11 @@ func (m *MonC13) queryAnswerApplied(w *World, step int, op Op) {
 	if name == "" || !m.preRaw[name][op.Q] || w.Failed != "" || w.Deadlock != "" {
 		return
 	}
-	answered := false
+	answered, notFound := false, false
 	for _, e := range w.Log() {
 		if e.Step == step && e.Kind == "mq_complete" && e.Subject == op.S && e.Query == op.Q && e.Err == "" {
 			answered = true
+			notFound = strings.Contains(string(e.Payload), `"code":"system.notFound"`)
 		}
 	}
 	if !answered {
@@ -127,6 +136,41 @@ func (m *MonC13) queryAnswerApplied(w *World, step int, op Op) {
 	}
 	d := w.Svc.defFor(name, w.CIDs())
 	if d == nil {
+		return
+	}
+	if notFound {
+		// "... or a delete on system.notFound": every rid of the answered query that
+		// a client held under a settled subscription before the step has had its
+		// delete event by the end of the step
+		for _, c := range w.Clients {
+			if !c.Dialed || c.EOF || c.Closed || c.CID == "" {
+				continue
+			}
+			for _, rid := range c.Ref.HeldRIDs() {
+				n, q := splitRID(strings.Replace(rid, "{cid}", c.CID, -1))
+				if n != name {
+					continue
+				}
+				norm, ok := d.Norm(q)
+				if !ok || norm != op.Q {
+					continue
+				}
+				full := n
+				if q != "" {
+					full += "?" + q
+				}
+				r := c.Ref.Held[rid]
+				if r.Type == 'e' || !m.preSettled[c.CID+"|"+full] {
+					continue
+				}
+				m.class("query_answer_not_found_checked")
+				if !r.Deleted {
+					m.viols = append(m.viols, Violation{Property: "C13", Class: "delete_not_delivered", Step: step, Conn: c.Idx, RID: rid, T: w.now(),
+						Message: fmt.Sprintf("c%d: the query request for %s?%s was answered with system.notFound in this step, but %s, held under a settled subscription, has received no delete event", c.Idx, name, op.Q, rid)})
+					return
+				}
+			}
+		}
 		return
 	}
 	queueing := map[string]bool{} // cid|rid
